@@ -22,10 +22,14 @@ def make_tagger(two_haps, primary=False, singletons=False, haps=("HAP1", "HAP2")
             hap = hap_cycle[painted_seen % 2] if two_haps and painted else None
             if painted and rng.random() < 0.25:
                 # a chromosome name is used once per haplotype (X in HAP1 and X in HAP2 is the normal case)
-                cands = [t for t in ["X", "W1", "B2", "Z", "Y", "B1"] if (t, hap) not in used_names]
+                # (in Primary mode once altogether: the haplotype of a Primary-tagged scaffold is read from its
+                # first piece's input name, so "Primary" and "HAP2" may be the same haplotype to the namer, and
+                # two Pretext scaffolds with one name in one haplotype are fused -- not a consistent tagging)
+                hk = None if primary else hap
+                cands = [t for t in ["X", "W1", "B2", "Z", "Y", "B1"] if (t, hk) not in used_names]
                 if cands:
                     t = rng.choice(cands)
-                    used_names.add((t, hap))
+                    used_names.add((t, hk))
                     sc_tags.append(t)
             if two_haps and painted:
                 sc_tags.append(hap)
